@@ -102,6 +102,18 @@ def check(prop, tier):
                     layers_out.append(dict(r, name=r['name'] + ' (widened search)'))
                 except BuildError:
                     pass
+        # A divergence between the real code and the model in an observable that a proved refinement theorem of this property pins
+        # down is itself a concrete failing input: the model's value there is what the property prescribes (by that theorem), the
+        # real code produced something else on this very input.  Only consulted when the tie is broken and no predicate fired.
+        if broken and diffs and not [v for v in viols if not match_known(prop, v, known)]:
+            import re as _re
+            for rx, text in desc.get('refines', []):
+                for d in diffs:
+                    hit = [l for l in d.get('lines', []) if _re.search(rx, l.get('c', '') or '') or _re.search(rx, l.get('lean', '') or '')]
+                    if hit and d.get('replay'):
+                        viols.append(dict(sig='%s %s' % (prop, text), at=d.get('at'), op=d.get('op'), real_code=hit[0].get('c'), prescribed=hit[0].get('lean'),
+                                          replay=d['replay'], layer=d.get('layer')))
+                        break
         new = []
         seen_known = {}
         for v in viols:
